@@ -49,7 +49,9 @@ theorem nextGrids_eq_cropMul (f fineRows fineCols : Nat) (sh : Nat × Nat) (amin
     intro i _
     apply List.map_congr_left
     intro j _
-    simp [Generated.KernelsMultiscale.mcPrepareMin, Generated.KernelsMultiscale.mcPrepareMax]
+    first
+      | exact congrArg (fun g => Val.map g _) (funext fun x => (mcPrepare_generated x f).1)
+      | exact congrArg (fun g => Val.map g _) (funext fun x => (mcPrepare_generated x f).2.1)
 
 /-- the grids the next level searches, with EVERY link generated: `disparity_range`, the hand-over of `run_multiscale` (first
     returned map → `disp_min`, second → `disp_max`: `runMultiscale_wiring`), `matching_cost_prepare`, `cv_masked` -/
@@ -99,7 +101,7 @@ theorem runMultiscale_wiring :
 theorem msUser_generated (bound : Rat) (f : Nat) :
     msUserMin bound (f : Int) = bound * (f : Rat) ∧ msUserMax bound (f : Int) = bound * (f : Rat)
     ∧ msUserRightMin bound (f : Int) = bound * (f : Rat) ∧ msUserRightMax bound (f : Int) = bound * (f : Rat) := by
-  refine ⟨?_, ?_, ?_, ?_⟩ <;> simp [msUserMin, msUserMax, msUserRightMin, msUserRightMax]
+  refine ⟨?_, ?_, ?_, ?_⟩ <;> simp only [msUserMin, msUserMax, msUserRightMin, msUserRightMax] <;> push_cast <;> ring
 
 /-! ### pyramid sizes -/
 
